@@ -1267,3 +1267,27 @@ def default_moving_window_is_the_documented_one(K, cls, window):
     else:
         x = K.obj(Series, start=K.obj(cls, serial=K.int("x_start", 8000, 8040)), data=K.array("x_data", (3, 1)), data_type=np.float64, metadata={}, __description__="")
     K.ensure("default window", K.method(x, "_get_default_moving_window") == window)
+
+
+# ------------------------------------------------------------------------------ queries about missing values
+@contract("C10", targets=[P + "Series.any_missing", P + "Series.all_missing", P + "Series.count_missing", P + "Series._func_missing", P + "Series.has_missing",
+                          P + "Series.get_data"], instances=[(n,) for n in NV], opts={"max_paths": 4000})
+def missing_value_queries_agree_with_the_view(K, nv):
+    """any_missing / all_missing / count_missing over given periods answer about exactly the cells a read of those periods
+    returns: is any / are all of them missing, and HOW MANY are (a number, not a truth value)."""
+    cls = CLS[0]
+    x, xs, xd = mk_series(K, "x", cls, nv)
+    lo, hi = ser(K, cls)
+    ds = [K.int(f"d{i}", lo - 10, hi + 20) for i in range(2)]
+    dates = tuple(K.obj(cls, serial=d) for d in ds)
+    miss = [K.cell_is_nan(V(K, xs, xd, d, c)) for d in ds for c in range(nv)]
+    count = sum(K.ite(m, 1, 0) for m in miss)
+    got_any = K.method(x, "any_missing", dates)
+    got_all = K.method(x, "all_missing", dates)
+    got_count = K.method(x, "count_missing", dates)
+    K.ensure("any_missing", K.truth(got_any) == K.Or(*miss))
+    K.ensure("all_missing", K.truth(got_all) == K.And(*miss))
+    is_truth_value = K.builtin("isinstance", got_count, bool)
+    K.ensure("count_missing is a number of cells, not a truth value", is_truth_value is False)
+    if is_truth_value is False:
+        K.ensure("count_missing counts the missing cells among those read", got_count == count)
